@@ -38,6 +38,58 @@ pub async fn connected_pair(listener: &TcpListener, header_mode: bool) -> Option
     Some(ConnPeer { conn, peer: pc? })
 }
 
+/// a connection whose handshake was refused by the peer (status "not_allowed", or a wrong digest in the acknowledgement) while
+/// the socket stays open: returns the connection, what connect() said, and the peer's socket to watch for stray bytes
+pub async fn refused_pair(listener: &TcpListener, how: &str) -> Option<(Connection, bool, tokio::net::TcpStream)> {
+    use tokio::io::{AsyncReadExt, AsyncWriteExt};
+    let cfg = ConnectionConfig::new(LOCAL, PEER, COOKIE).with_epmd_host("127.0.0.1").with_timeout(Duration::from_millis(1500));
+    let mut conn = Connection::new(cfg);
+    let how = how.to_string();
+    let acc = async {
+        let (mut s, _) = listener.accept().await.ok()?;
+        let mut l = [0u8; 2];
+        s.read_exact(&mut l).await.ok()?;
+        let mut name = vec![0u8; u16::from_be_bytes(l) as usize];
+        s.read_exact(&mut name).await.ok()?;
+        if how == "not_allowed" {
+            let st = b"snot_allowed";
+            let mut f = (st.len() as u16).to_be_bytes().to_vec();
+            f.extend_from_slice(st);
+            s.write_all(&f).await.ok()?;
+        } else {
+            // ok + challenge, then an acknowledgement with a wrong digest
+            s.write_all(&[0, 3, b's', b'o', b'k']).await.ok()?;
+            let mut c = vec![b'N'];
+            c.extend_from_slice(&PEER_FLAGS.to_be_bytes());
+            c.extend_from_slice(&0x01020304u32.to_be_bytes());
+            c.extend_from_slice(&1u32.to_be_bytes());
+            c.extend_from_slice(&(PEER.len() as u16).to_be_bytes());
+            c.extend_from_slice(PEER.as_bytes());
+            let mut f = (c.len() as u16).to_be_bytes().to_vec();
+            f.extend_from_slice(&c);
+            s.write_all(&f).await.ok()?;
+            // the initiator's reply (possibly preceded by a complement message)
+            for _ in 0..2 {
+                s.read_exact(&mut l).await.ok()?;
+                let mut b = vec![0u8; u16::from_be_bytes(l) as usize];
+                s.read_exact(&mut b).await.ok()?;
+                if b.first() == Some(&b'r') {
+                    break;
+                }
+            }
+            let mut a = vec![b'a'];
+            a.extend_from_slice(&[0u8; 16]);
+            let mut f = (a.len() as u16).to_be_bytes().to_vec();
+            f.extend_from_slice(&a);
+            s.write_all(&f).await.ok()?;
+        }
+        s.flush().await.ok()?;
+        Some(s)
+    };
+    let (s, r) = tokio::join!(acc, conn.connect());
+    Some((conn, r.is_ok(), s?))
+}
+
 fn pid_of(v: &Value) -> ExternalPid {
     match build(v) {
         OwnedTerm::Pid(p) => p,
@@ -105,6 +157,23 @@ pub fn run_send(args: &[String]) -> i32 {
             let mut c = Connection::new(ConnectionConfig::new(LOCAL, PEER, COOKIE).with_epmd_host("127.0.0.1"));
             let r = issue(&mut c, op).await;
             w.put(&json!({"id": op["id"], "mode": "unconnected", "result_ok": r.is_ok(), "frames": []}));
+        }
+        // operations after a handshake the peer refused, on the still open socket: must fail and write nothing
+        for how in ["not_allowed", "bad_ack"] {
+            use tokio::io::AsyncReadExt;
+            let Some((mut c, connected, mut sock)) = refused_pair(&listener, how).await else {
+                w.put(&json!({"tool_error": "refused handshake scenario did not run"}));
+                return;
+            };
+            for op in ops.iter().take(12) {
+                let r = issue(&mut c, op).await;
+                let mut buf = [0u8; 256];
+                let stray = match tokio::time::timeout(Duration::from_millis(25), sock.read(&mut buf)).await {
+                    Ok(Ok(n)) if n > 0 => n,
+                    _ => 0,
+                };
+                w.put(&json!({"id": op["id"], "mode": format!("refused:{how}"), "connect_ok": connected, "result_ok": r.is_ok(), "stray_bytes_on_the_wire": stray, "frames": []}));
+            }
         }
         for header_mode in [false, true] {
             let Some(mut cp) = connected_pair(&listener, header_mode).await else {
